@@ -3,6 +3,7 @@
 package c14
 
 import (
+	"context"
 	"bytes"
 	"fmt"
 	"sort"
@@ -509,8 +510,69 @@ func brokenSubscriber() {
 	}
 	vrt.Observe("first=%v accepted=%v events=%v", first, accepted, events)
 }
+// cancelledWrite: a client write is cancelled (context done) while it waits
+// in the object's mailbox behind a slow call. Whatever the writer is told, the
+// write takes effect at most once: at most one event carries its value, and
+// the next write is the value read afterwards.
+func cancelledWrite() {
+	w := fx.Start(bus.Yes{})
+	cw, ch := w.MustConnect(), w.MustConnect()
+	ctx, stop := context.WithCancel(context.Background())
+	pW, pH := cw.Probe(1), ch.Probe(1)
+	var events []int32
+	_, c, err := pH.SubscribeLevel()
+	if err != nil {
+		vrt.Failf("harness/subscribe", "%v", err)
+		return
+	}
+	vrt.GoNamed("drain-H", func() {
+		for v := range c {
+			events = append(events, v)
+		}
+	})
+	w.Root.Gate = make(chan struct{})
+	vrt.GoNamed("slow-caller", func() { pH.Slow(1) })
+	vrt.Quiesce() // the object is busy in slow(1)
+	vrt.Explore()
+	var werr error
+	done := false
+	ww := vrt.GoWorker("writer", func() { werr = pW.WithContext(ctx).SetLevel(5); done = true })
+	wc := vrt.GoWorker("canceller", func() { stop() })
+	vrt.Quiesce()
+	if !done {
+		vrt.Failf("hang/cancelled-write", "a write whose context was cancelled did not return")
+	}
+	close(w.Root.Gate)
+	vrt.Quiesce()
+	fx.Settle(ww, wc)
+	if err := pW.SetLevel(7); err != nil {
+		vrt.Failf("call-failed/after-cancelled-write", "SetLevel(7) after a cancelled write failed: %v", err)
+	}
+	vrt.Quiesce()
+	n5 := 0
+	for _, v := range events {
+		if v == 5 {
+			n5++
+		}
+	}
+	if n5 > 1 {
+		vrt.Failf("cancelled-write-applied-twice", "a write of 5 that was cancelled while in flight produced %d change events: %v", n5, events)
+	}
+	if len(events) == 0 || events[len(events)-1] != 7 {
+		vrt.Failf("events-differ-from-accepted-writes/cancelled-write", "change events %v: the last accepted write is 7", events)
+	}
+	if v, err := pW.GetLevel(); err != nil || v != 7 {
+		vrt.Failf("read-differs/cancelled-write", "GetLevel returned %d, %v after SetLevel(7); events %v", v, err, events)
+	}
+	if werr != nil {
+		vrt.Flag("writer-told-cancelled")
+	}
+	vrt.Observe("werr=%v events=%v", werr != nil, events)
+}
 
 func init() {
+	reg.Register(&reg.Scenario{Property: "C14", Name: "cancelled-write", Body: cancelledWrite, Quick: 2, Thorough: 3,
+		Doc: "a client write waits in the mailbox behind a slow call; its context is cancelled; then the object is released and another write follows: the cancelled write takes effect at most once", MustFlag: []string{"writer-told-cancelled"}})
 	reg.Register(&reg.Scenario{Property: "C14", Name: "broken-subscriber", Body: brokenSubscriber, Quick: 1, Thorough: 2,
 		Doc: "a subscriber behind a connection the server cannot write to any more is still registered; a client and the service write: stored values are readable and announced exactly once to the healthy subscriber; a write answered with an error changes nothing"})
 	reg.Register(&reg.Scenario{Property: "C14", Name: "histories-same-client", Body: histories(true), Quick: 0, Thorough: 1,
